@@ -32,16 +32,23 @@ class MetaVal:
         return TVal("metadata", kind="table", ident=self.ident, attrs={"ok_as_M": True})
 
 
+LOSSY_SHIFT = 100000
+
+
 class MHook:
     """serde binding of the type parameter M when it is the buildpack's own metadata struct"""
-    def __init__(self, none_ok):
+    def __init__(self, none_ok, lossy=False):
         self.none_ok = none_ok
+        self.lossy = lossy      # M may ignore keys of the stored table: what M sees is a projection of the table (C01)
 
     def deserialize(self, ctx, ty, tv):
         if tv.decide_kind(ctx) != "table":
             return Err(summ_serde.SerdeErr("invalid_type", tv.kind))
         ok = tv.attrs.get("ok_as_M", True)
         if ok is True or (ok is not False and ctx.branch(ok, f"ok_as_M:{tv.name}")):
+            lo = tv.attrs.get("lossy")
+            if self.lossy and lo is not None and tv.ident is not None:
+                return Ok(MetaVal(z3.If(lo, tv.ident + LOSSY_SHIFT, tv.ident)))
             return Ok(MetaVal(tv.ident))
         return Err(summ_serde.SerdeErr("custom", "metadata does not deserialise as M"))
 
@@ -64,7 +71,7 @@ def mk_layer_toml(ctx, prefix):
         ["launch", True, TVal(f"{prefix}.types.launch", kind="bool", scalar=b("launch"))],
         ["build", True, TVal(f"{prefix}.types.build", kind="bool", scalar=b("build"))],
         ["cache", True, TVal(f"{prefix}.types.cache", kind="bool", scalar=b("cache"))]])
-    meta = TVal(f"{prefix}.metadata", kind="table", ident=z3.Int(f"{prefix}_mid"), attrs={"ok_as_M": b("okM")})
+    meta = TVal(f"{prefix}.metadata", kind="table", ident=z3.Int(f"{prefix}_mid"), attrs={"ok_as_M": b("okM"), "lossy": b("lossyM")})
     tree = TVal(f"{prefix}", kind="table", entries=[
         ["types", b("has_types"), types], ["metadata", b("has_meta"), meta],
         ["zz", b("has_unknown_key"), TVal(f"{prefix}.zz", kind="str", scalar="x")]])
